@@ -196,12 +196,13 @@ def _lmis_equal(la, lb):
                 continue
             ok = True
             for (ka, sa), (kb, sb) in zip(pa, pb):
-                if ka != kb or len(sa) != len(sb):
+                if ka != kb:
                     ok = False
                     break
-                if all(sig_close(tuple(u), tuple(v), 1e-9) for u, v in zip(sa, sb)):
-                    continue
-                if len(sa) == 2 and sig_close(tuple(sa[0]), tuple(sb[1]), 1e-9) and sig_close(tuple(sa[1]), tuple(sb[0]), 1e-9):
+                # set semantics: the functionals an entry is tied to (an entry tied twice to one functional = once)
+                da = [u for n_, u in enumerate(sa) if not any(sig_close(tuple(u), tuple(w), 1e-9) for w in sa[:n_])]
+                db = [u for n_, u in enumerate(sb) if not any(sig_close(tuple(u), tuple(w), 1e-9) for w in sb[:n_])]
+                if len(da) == len(db) and all(any(sig_close(tuple(u), tuple(v), 1e-9) for v in db) for u in da):
                     continue
                 ok = False
                 break
